@@ -129,6 +129,15 @@ pub fn c14(v: &View) -> Vec<Violation> {
                     }
                 },
             };
+            // a repeated *unknown* parameter: RFC 9000 7.4 only says SHOULD for duplicates, and an
+            // implementation that skips unknown ids cannot see them; not judged
+            if !valid && why.starts_with("duplicate parameter 0x") {
+                let id = u64::from_str_radix(why.trim_start_matches("duplicate parameter 0x").split(|c: char| !c.is_ascii_hexdigit()).next().unwrap_or(""), 16).unwrap_or(0);
+                let known = id <= 0x10 || id == tp::MAX_DATAGRAM_FRAME_SIZE;
+                if !known {
+                    continue;
+                }
+            }
             // values the RFC does not rule out but that this oracle does not judge
             // (max_udp_payload_size above the largest possible UDP payload: 18.2 only calls values
             // below 1200 invalid). Judged on the block as received, whatever rule produced it.
